@@ -822,3 +822,155 @@ pub fn gen_verdict(rng: &mut Rng, idx: usize) -> Case {
     }
     gen_case(rng, true, Some(shape), Mon::C01, idx)
 }
+
+// ---------------------------------------------------------------------------
+// C01, process verdict: the REAL `Cucumber` builder glue (`with_cli`, `repeat_*`, `fail_on_skipped*`,
+// `filter_run`'s event loop, `run_and_exit`'s panic) around a runner that replays a generated stream.
+
+/// a `Runner` that ignores the features and replays a prepared event stream
+pub struct ReplayRunner(pub Vec<AEv>, pub Rc<Cat>);
+impl cucumber::Runner<PW> for ReplayRunner {
+    type Cli = cli::Empty;
+    type EventStream = futures::stream::LocalBoxStream<'static, REv>;
+    fn run<S>(self, _features: S, _: cli::Empty) -> Self::EventStream
+    where
+        S: futures::Stream<Item = parser::Result<gherkin::Feature>> + 'static,
+    {
+        use futures::StreamExt as _;
+        let cat = self.1;
+        futures::stream::iter(self.0.into_iter().map(move |e| cat.realize(&e))).boxed_local()
+    }
+}
+
+type ExitCuc<Wr> = cucumber::Cucumber<PW, crate::fam_filter::VecParser, (), ReplayRunner, Wr, cli::Empty>;
+
+/// `run_and_exit` under `catch_unwind`: `None` = returned normally, `Some(msg)` = panicked with `msg`
+fn run_exit<Wr>(c: ExitCuc<Wr>) -> Option<String>
+where
+    Wr: Writer<PW, Cli = cli::Empty> + writer::Stats<PW> + writer::Normalized,
+{
+    let opts = cli::Opts::<cli::Empty, cli::Empty, cli::Empty, cli::Empty> {
+        re_filter: None,
+        tags_filter: None,
+        parser: cli::Empty,
+        runner: cli::Empty,
+        writer: cli::Empty,
+        custom: cli::Empty,
+    };
+    crate::fam_attempt::install_counting_hook();
+    crate::fam_attempt::HOOK_QUIET.with(|q| q.set(true));
+    let r = std::panic::catch_unwind(std::panic::AssertUnwindSafe(|| block_on(c.with_cli(opts).run_and_exit(()))));
+    crate::fam_attempt::HOOK_QUIET.with(|q| q.set(false));
+    match r {
+        Ok(()) => None,
+        Err(p) => Some(
+            p.downcast_ref::<String>().cloned()
+                .or_else(|| p.downcast_ref::<&'static str>().map(|s| (*s).to_owned()))
+                .unwrap_or_else(|| "<non-string payload>".to_owned()),
+        ),
+    }
+}
+
+fn verdict_shape(rng: &mut Rng, nl: &mut usize) -> WX {
+    fn summ(rng: &mut Rng, nl: &mut usize) -> WX {
+        *nl += 1;
+        let leaf = WX::Leaf(*nl);
+        let inner = if rng.chance(1, 3) { WX::Rep('f', Box::new(leaf)) } else { leaf };
+        WX::Summ(Box::new(inner))
+    }
+    match rng.below(6) {
+        0 => WX::Tee(Box::new(summ(rng, nl)), Box::new(summ(rng, nl))),
+        1 => WX::Or(*rng.pick(&["c0", "c1", "o"]), Box::new(summ(rng, nl)), Box::new(summ(rng, nl))),
+        2 => { *nl += 1; WX::Leaf(*nl) }
+        _ => summ(rng, nl),
+    }
+}
+
+/// C01: `exit.run` — the run's events through the real builder glue and `run_and_exit`.
+pub fn gen_exit(rng: &mut Rng, idx: usize) -> Case {
+    // directed: the witnesses of the known findings first (C12.streamA/B/C)
+    let dir = directed(idx);
+    let mut specs = match &dir { Some((s, _)) => s.clone(), None => gen_catalog_specs_twins(rng, 3) };
+    let mut nl = 0;
+    let core = if dir.is_some() { nl += 1; WX::Summ(Box::new(WX::Leaf(nl))) } else { verdict_shape(rng, &mut nl) };
+    // builder glue: `repeat_*` needs a NonTransforming writer, so it is applied before `fail_on_skipped*`
+    let rep = if dir.is_some() || !core.summarizable_outer() { 'x' } else { *rng.pick(&['x', 'x', 's', 'f', 'a']) };
+    let fos = if dir.is_some() { 'x' } else { *rng.pick(&['x', 'x', 'd', 'a', 'o']) };
+    let fos_focus = fos != 'x' && rng.chance(1, 2);
+    if fos_focus {
+        for f in specs.iter_mut() {
+            let level = rng.below(4);
+            let fix = |tags: &mut Vec<String>, on: bool| {
+                tags.retain(|t| t != "allow.skipped");
+                if on { tags.push("allow.skipped".to_owned()); }
+            };
+            fix(&mut f.tags, level == 0);
+            for sc in &mut f.scens { let on = level == 2 && rng.chance(1, 2); fix(&mut sc.tags, on); }
+            for r in &mut f.rules {
+                let on = level == 1 && rng.chance(1, 2);
+                fix(&mut r.tags, on);
+                for sc in &mut r.scens { let on = level == 2 && rng.chance(1, 2); fix(&mut sc.tags, on); }
+            }
+        }
+    }
+    SKIP_BIAS.with(|b| b.set(fos_focus));
+    let cat = Rc::new(Cat::new(&specs));
+    let cut = rng.chance(1, 6);
+    let evs = match dir { Some((_, e)) => e, None => gen_canonical_stream(rng, &cat, cut) };
+    SKIP_BIAS.with(|b| b.set(false));
+
+    let mut wx = core.clone();
+    if rep != 'x' { wx = WX::Rep(rep, Box::new(wx)); }
+    if fos != 'x' { wx = WX::Fos(fos, Box::new(wx)); }
+
+    let log: Log = Rc::default();
+    let inner = build(&core, &log, &cat);
+    let base = cucumber::Cucumber::<PW, _, (), _, _, cli::Empty>::custom(
+        crate::fam_filter::VecParser(vec![]),
+        ReplayRunner(evs.clone(), Rc::clone(&cat)),
+        inner,
+    );
+    macro_rules! with_fos { ($c:expr) => {{
+        let c = $c;
+        match fos {
+            'd' => run_exit(c.fail_on_skipped()),
+            'a' => run_exit(c.fail_on_skipped_with(|_, _, _| true)),
+            'o' => run_exit(c.fail_on_skipped_with(|_, _, s: &gherkin::Scenario| {
+                s.name.trim_start_matches("s-").parse::<usize>().unwrap() % 2 == 1
+            })),
+            _ => run_exit(c),
+        }
+    }}; }
+    let outcome = match rep {
+        's' => with_fos!(base.repeat_skipped()),
+        'f' => with_fos!(base.repeat_failed()),
+        'a' => with_fos!(base.repeat_if(|_| true)),
+        _ => with_fos!(base),
+    };
+    let l = log.borrow();
+    let imp = format!(
+        "{} || {}",
+        show_list(&l, |s| s.clone()),
+        match &outcome { None => "exit 0".to_owned(), Some(m) => format!("exit 1 {}", hex(m)) },
+    );
+    let req = format!("exit.run {} {} {}", wx.show(), cat.show(), show_list(&evs, show_aev));
+    let mut kinds = vec![];
+    wx.kinds(&mut kinds);
+    kinds.sort();
+    kinds.dedup();
+    Case {
+        req,
+        imp,
+        class: format!("{}:{}", if outcome.is_some() { "panic" } else { "ok" }, kinds.join("+")),
+        nontrivial: !evs.is_empty(),
+    }
+}
+
+impl WX {
+    /// may a `Repeat` be put around this writer (it must be `NonTransforming`)?
+    fn summarizable_outer(&self) -> bool {
+        // DynW (what `build` returns) is declared NonTransforming whatever it contains; the real
+        // restriction is on what the MODEL can express: `rep` around anything is fine
+        true
+    }
+}
